@@ -209,3 +209,19 @@ Proof. exact AsmParserP.C19_block_depth. Qed.
 Theorem C19_block_guard : forall (fuel bd : nat) (w : walker), (PARSE_DEPTH_MAX <= bd)%nat ->
   parse_braced fuel bd w = PErr \/ parse_braced fuel bd w = PFuel.
 Proof. exact AsmParserP.C19_block_guard. Qed.
+
+(* ===== after the repairs F57 / F76: asm blocks share the block counter, the expression depth is cumulative across asm
+   blocks; the nesting an accepted program can reach is linear in the limit (before: limit + limit^2) ===== *)
+From CA Require Import Spec.AsmDepth Proofs.AsmParserDepthP.
+Theorem C19_expr_depth_cumulative : forall (t : text) (nodes : list anode) (w : walker) (k : nat),
+  parse_file t = POk nodes w -> xdepth_ge k nodes -> (k <= PARSE_DEPTH_MAX)%nat.
+Proof. exact AsmParserDepthP.C19_expr_depth_cumulative. Qed.
+Theorem C19_nesting_linear : forall (t : text) (nodes : list anode) (w : walker) (kb ke : nat),
+  parse_file t = POk nodes w -> nest_ge kb nodes -> xdepth_ge ke nodes -> (kb + ke <= 2 * PARSE_DEPTH_MAX)%nat.
+Proof. exact AsmParserDepthP.C19_nesting_linear. Qed.
+Theorem C19_asm_guard : forall (fuel bd d : nat) (w : walker), (PARSE_DEPTH_MAX <= bd)%nat ->
+  asm_hook fuel bd d w = PErr \/ asm_hook fuel bd d w = PFuel.
+Proof. exact AsmParserP.C19_asm_guard. Qed.
+Theorem C19_expr_guard : forall A (hook : nat -> walker -> pres (span * A)) (fuel d : nat) (w : walker), (PARSE_DEPTH_MAX <= d)%nat ->
+  gparse_expr hook fuel d w = PErr \/ gparse_expr hook fuel d w = PFuel.
+Proof. exact AsmParserP.C19_expr_guard. Qed.
